@@ -8,6 +8,11 @@ Idents2 == {Root, User}
 ShapesAll == [trav : BOOLEAN, prov : BOOLEAN, rbac : BOOLEAN, exempt : BOOLEAN, over : BOOLEAN,
               framing : {"cl", "chunked"}, spoof : {0, 2}]
 Plain(rb) == [trav |-> FALSE, prov |-> FALSE, rbac |-> rb, exempt |-> FALSE, over |-> FALSE, framing |-> "cl", spoof |-> 0]
+\* a mid-size shape set for the deeper configurations: every early-exit class once, plus plain allow/deny
+ShapesMid == {Plain(TRUE), Plain(FALSE),
+              [Plain(TRUE) EXCEPT !.trav = TRUE], [Plain(TRUE) EXCEPT !.prov = TRUE],
+              [Plain(TRUE) EXCEPT !.over = TRUE], [Plain(FALSE) EXCEPT !.over = TRUE, !.framing = "chunked"],
+              [Plain(TRUE) EXCEPT !.exempt = TRUE, !.spoof = 2], [Plain(FALSE) EXCEPT !.exempt = TRUE, !.framing = "chunked"]}
 ShapesPlain == {Plain(TRUE), Plain(FALSE)}
 ShapesOne == {Plain(TRUE)}
 
